@@ -149,6 +149,9 @@ func (l *InterceptingListener) getTlsConfigForClient(clientInfo *ClientInfo) fun
 				if err := proto.Unmarshal(reqBytes, serverCertsReq); err != nil {
 					return nil, fmt.Errorf("(%s) error unmarshaling common name value: %w", op, err)
 				}
+				// The request comes from the remote peer; verification may only
+				// be skipped by the fetch path above, never at the peer's request
+				serverCertsReq.SkipVerification = false
 				protoToReturn = p
 
 			default:
